@@ -1302,6 +1302,14 @@ func init() {
 		return Tuple{r, goInt(w)}
 	})
 	reg("unicode/utf8.RuneCountInString", func(in *Interp, fr *frame, a []Value) Value { return goInt(len(in.strToRunes(strArg(a[0])))) })
+	reg("unicode/utf8.RuneCount", func(in *Interp, fr *frame, a []Value) Value { return goInt(len(in.strToRunes(bstr(a[0])))) })
+	reg("unicode/utf8.Valid", func(in *Interp, fr *frame, a []Value) Value {
+		s := bstr(a[0])
+		if c, ok := s.Concrete(); ok {
+			return mkBool(utf8.ValidString(c))
+		}
+		return symBool(validUTF8Term(s.bytes()))
+	})
 	reg("unicode/utf8.ValidString", func(in *Interp, fr *frame, a []Value) Value {
 		s := strArg(a[0])
 		if c, ok := s.Concrete(); ok {
